@@ -1184,7 +1184,7 @@ const rule = "Exhaustive: every digraph on <=4 nodes (thorough 5) as adjacency m
 	"other components, nil without SCCEdges, SubnodeComponent consistent; SimplifyMulti sums parallel weights; MakeBiGraph In = " +
 	"transpose; Equal = multiset equality; Subgraph node/edge sets and maps; Dot output parsed by a quote-aware parser: every node " +
 	"and edge once in order, strings unescape to the originals, other attribute types verbatim. Non-trivial: >=3 nodes with a cycle " +
-	"or parallel edge, or ids >= 1024."
+	"or parallel edge, or ids >= 1024. Later additions: Dot strings of arbitrary bytes (multi-byte and invalid UTF-8), broom / self-loop / two-cycle-chain kinds up to 100000 nodes, out-degrees beyond 2^17, subgraph arguments clobbered after the call."
 
 func drawAdj(t *rapid.T, maxN int) [][]int {
 	n := rapid.IntRange(1, maxN).Draw(t, "n")
